@@ -255,6 +255,12 @@ func (fx *fakeExchange) GetBlocks(ctx context.Context, cids []cid.Cid) (<-chan b
 				if err != nil || !got.Equals(want) {
 					continue // dropped: not the block that was asked for
 				}
+				if k := kindOfLabel(label); k == "other" || k == "trunc" {
+					// accepted by the verifying hash: not a forgery after all (degenerate square)
+					fx.mu.Lock()
+					fx.served[idx][len(fx.served[idx])-1] = "correct"
+					fx.mu.Unlock()
+				}
 				blk, err := blocks.NewBlockWithCid(data, want)
 				if err != nil {
 					continue
